@@ -32,6 +32,23 @@ func accessPath(v ssa.Value, depth int) string {
 	if depth > 8 {
 		return ""
 	}
+	// widening and same-width conversions are transparent; a narrowing one yields another value
+	// (comparing uint32(index) with a bound says nothing about index itself)
+	for d := 0; d < 4; d++ {
+		v = canon(v)
+		cv, ok := v.(*ssa.Convert)
+		if !ok {
+			break
+		}
+		if narrowingConv(cv) {
+			inner := accessPath(cv.X, depth+1)
+			if inner == "" {
+				return ""
+			}
+			return "narrow(" + inner + ")"
+		}
+		v = cv.X
+	}
 	v = canonConv(v)
 	switch x := v.(type) {
 	case *ssa.Parameter:
@@ -412,4 +429,27 @@ func reachFromBlockEnd(b *ssa.BasicBlock, edgeOK func(from *ssa.BasicBlock, succ
 			walk(s)
 		}
 	}
+}
+
+// narrowingConv: an integer conversion to a type with fewer bits (or from signed/unsigned 64 to anything smaller).
+func narrowingConv(cv *ssa.Convert) bool {
+	size := func(t types.Type) int {
+		b, ok := t.Underlying().(*types.Basic)
+		if !ok || b.Info()&types.IsInteger == 0 {
+			return 0
+		}
+		switch b.Kind() {
+		case types.Int8, types.Uint8:
+			return 8
+		case types.Int16, types.Uint16:
+			return 16
+		case types.Int32, types.Uint32:
+			return 32
+		case types.Int64, types.Uint64, types.Int, types.Uint, types.Uintptr:
+			return 64
+		}
+		return 0
+	}
+	from, to := size(cv.X.Type()), size(cv.Type())
+	return from != 0 && to != 0 && to < from
 }
